@@ -1,42 +1,1073 @@
 /-
-C03 — Mapping groups are pairwise disjoint, so the output has no duplicate statements.
-(The separation theorems for the scan are in preparation in a separate file set; this file holds the
-counter-witnesses of the unchanged code, which delimit what can be proved.)
+C03 — Mapping groups are pairwise disjoint.
+
+Layer B2 (`C03_partial_separation`): two rules with different PARTIAL-AGGREGATIONS labels are *separated* at some
+position, whatever the data.  Layers B3/B4 (`C03_disjoint_partial`): separated, token-safe rules never print the same
+N-QUADS line.  Counter-witnesses: `C03_F1_ntriples_graph_only`, `C03_F3_literal_type_on_iri`.
 -/
-import MorphKgc.Model.Partition
 import MorphKgc.Model.Eval
+import MorphKgc.Lemmas.PartialScan
+import MorphKgc.Lemmas.MaximalScan
+import MorphKgc.Lemmas.Render
+import MorphKgc.Lemmas.Pct
+import MorphKgc.Props.C02
 
 namespace Props.C03
 open Py Model
 
-def g1Rule : Rule :=
-  { tmId := "#TM0".toList, subjectMapType := .template, subjectMapValue := "http://ex/s/{id}".toList,
-    predicateMapValue := "http://ex/p".toList, objectMapValue := "http://ex/o".toList,
-    graphMapValue := "http://ex/G1".toList }
-def g2Rule : Rule := { g1Rule with tmId := "#TM1".toList, graphMapValue := "http://ex/G2".toList }
+/-! ### B2: different labels ⟹ separated at some position -/
 
-/-- C03_F1: two rules that differ only in their (constant) graph maps are put into different groups, yet with
-    N-TRIPLES output they print the same line for the same row: every statement is written twice -/
-theorem C03_F1_ntriples_graph_only :
-    partitionLabels .partialAggregations [g1Rule, g2Rule] = .ok ["1-1-1-1".toList, "1-1-1-2".toList] ∧
-    rowTriple { fmt := .ntriples } g1Rule .constant g1Rule.objectMapValue [] [(['i', 'd'], ['7'])]
-      = rowTriple { fmt := .ntriples } g2Rule .constant g2Rule.objectMapValue [] [(['i', 'd'], ['7'])] ∧
-    rowTriple { fmt := .nquads } g1Rule .constant g1Rule.objectMapValue [] [(['i', 'd'], ['7'])]
-      ≠ rowTriple { fmt := .nquads } g2Rule .constant g2Rule.objectMapValue [] [(['i', 'd'], ['7'])] := by
+/-- subject position: a blank node against a non-blank node, or prefix-incomparable invariants -/
+def SepS (a b : PRule) : Prop :=
+  (a.rule.subjectTermtype = .bnode ∧ b.rule.subjectTermtype ≠ .bnode) ∨
+  (a.rule.subjectTermtype ≠ .bnode ∧ b.rule.subjectTermtype = .bnode) ∨
+  (a.rule.subjectTermtype ≠ .bnode ∧ b.rule.subjectTermtype ≠ .bnode ∧ Incomp a.sInv b.sInv)
+
+/-- predicate position: prefix-incomparable invariants; only *different* invariants when all predicate maps are constants -/
+def SepP (rs : List PRule) (a b : PRule) : Prop := Unrel (relOf (enforceFor .P rs)) a.pInv b.pInv
+
+/-- graph position: as for predicates -/
+def SepG (rs : List PRule) (a b : PRule) : Prop := Unrel (relOf (enforceFor .G rs)) a.gInv b.gInv
+
+/-- object position: different term types, or two literals of different `literal_type`, or two IRIs (two quoted
+    triples) with prefix-incomparable invariants -/
+def SepO (a b : PRule) : Prop :=
+  a.rule.objectTermtype ≠ b.rule.objectTermtype ∨
+  (a.rule.objectTermtype = .literal ∧ b.rule.objectTermtype = .literal ∧ a.litType ≠ b.litType) ∨
+  (a.rule.objectTermtype = b.rule.objectTermtype ∧ a.rule.objectTermtype ≠ .literal ∧
+    a.rule.objectTermtype ≠ .bnode ∧ Incomp a.oInv b.oInv)
+
+def Separated (rs : List PRule) (a b : PRule) : Prop := SepS a b ∨ SepP rs a b ∨ SepO a b ∨ SepG rs a b
+
+/-- the label PARTIAL-AGGREGATIONS gives a row -/
+theorem partial_label (rs : List PRule) (hnd : (rs.map (·.idx)).Nodup) (r : PRule) (hr : r ∈ rs) :
+    componentOf (partialAggregations rs) r.idx =
+      componentOf (partialPass .S rs) r.idx ++ ['-'] ++ componentOf (partialPass .P rs) r.idx ++ ['-'] ++
+      componentOf (partialPass .O rs) r.idx ++ ['-'] ++ componentOf (partialPass .G rs) r.idx := by
+  apply componentOf_eq
+  · unfold partialAggregations; dsimp only; rw [List.map_map]; exact hnd
+  · unfold partialAggregations; dsimp only
+    exact List.mem_map.mpr ⟨r, hr, rfl⟩
+
+/-- rows with different labels are separated (on the rows of `_get_term_invariants`) -/
+theorem partial_rows_separated (rs : List PRule) (hnd : (rs.map (·.idx)).Nodup)
+    (hO : ∀ r ∈ rs, r.rule.objectTermtype ≠ .literal → r.litType = none)
+    (a b : PRule) (ha : a ∈ rs) (hb : b ∈ rs)
+    (hne : componentOf (partialAggregations rs) a.idx ≠ componentOf (partialAggregations rs) b.idx) :
+    Separated rs a b := by
+  rw [partial_label rs hnd a ha, partial_label rs hnd b hb] at hne
+  by_cases hS : componentOf (partialPass .S rs) a.idx = componentOf (partialPass .S rs) b.idx
+  · by_cases hP : componentOf (partialPass .P rs) a.idx = componentOf (partialPass .P rs) b.idx
+    · by_cases hOc : componentOf (partialPass .O rs) a.idx = componentOf (partialPass .O rs) b.idx
+      · by_cases hG : componentOf (partialPass .G rs) a.idx = componentOf (partialPass .G rs) b.idx
+        · exact absurd (by rw [hS, hP, hOc, hG]) hne
+        · exact Or.inr (Or.inr (Or.inr
+            (sepG rs _ (passPairs_mem .G rs hnd a ha) _ (passPairs_mem .G rs hnd b hb) hG)))
+      · exact Or.inr (Or.inr (Or.inl
+          (sepO rs hO _ (passPairs_mem .O rs hnd a ha) _ (passPairs_mem .O rs hnd b hb) hOc)))
+    · exact Or.inr (Or.inl (sepP rs _ (passPairs_mem .P rs hnd a ha) _ (passPairs_mem .P rs hnd b hb) hP))
+  · exact Or.inl (sepS rs _ (passPairs_mem .S rs hnd a ha) _ (passPairs_mem .S rs hnd b hb) hS)
+
+theorem mem_zip_range {α} (l : List α) (i : Nat) (x : α) (h : (i, x) ∈ List.zip (List.range l.length) l) :
+    ∃ hi : i < l.length, l[i] = x := by
+  obtain ⟨k, hk, he⟩ := List.mem_iff_getElem.mp h
+  simp only [List.length_zip, List.length_range, Nat.min_self] at hk
+  simp only [List.getElem_zip, List.getElem_range, Prod.mk.injEq] at he
+  obtain ⟨rfl, rfl⟩ := he
+  exact ⟨hk, rfl⟩
+
+/-- the row of the `i`-th rule -/
+theorem row_of_index (rules : List Rule) (rs : List PRule) (h : termInvariants rules = .ok rs) (i : Nat)
+    (hi : i < rules.length) : ∃ a ∈ rs, RowOf rules i rules[i] a := by
+  obtain ⟨hidx, _, hrows⟩ := termInvariants_ok rules rs h
+  have : i ∈ rs.map (·.idx) := by rw [hidx]; exact List.mem_range.mpr hi
+  obtain ⟨a, ha, hai⟩ := List.mem_map.mp this
+  obtain ⟨i', r, hz, hrow⟩ := hrows a ha
+  have e : i' = i := hrow.idx.symm.trans hai
+  subst e
+  obtain ⟨_, hr⟩ := mem_zip_range rules i' r hz
+  subst hr
+  exact ⟨a, ha, hrow⟩
+
+/-- **B2.** If PARTIAL-AGGREGATIONS gives the `i`-th and the `j`-th rule different labels, the two rules are separated
+    at some position.  Hypothesis `hO` (language/datatype only on literal objects) is forced by the code: the object
+    sort puts `literal_type` before the invariant for *all* term types (see `C03_F3_literal_type_on_iri`). -/
+theorem C03_partial_separation (rules : List Rule) (ls : List Str)
+    (hp : partitionLabels .partialAggregations rules = .ok ls)
+    (hO : ∀ r ∈ rules, r.objectTermtype ≠ .literal → r.langDatatype = none)
+    (i j : Nat) (hi : i < rules.length) (hj : j < rules.length) (hne : ls[i]? ≠ ls[j]?) :
+    ∃ rs a b, termInvariants rules = .ok rs ∧ a ∈ rs ∧ b ∈ rs ∧
+      RowOf rules i rules[i] a ∧ RowOf rules j rules[j] b ∧ Separated rs a b := by
+  unfold partitionLabels at hp
+  cases ht : termInvariants rules with
+  | error e => simp [ht, bind, Except.bind] at hp
+  | ok rs =>
+    simp only [ht, bind, Except.bind, pure, Except.pure, Except.ok.injEq] at hp
+    subst hp
+    obtain ⟨hidx, hrule, hrows⟩ := termInvariants_ok rules rs ht
+    obtain ⟨a, ha, hra⟩ := row_of_index rules rs ht i hi
+    obtain ⟨b, hb, hrb⟩ := row_of_index rules rs ht j hj
+    have hnd : (rs.map (·.idx)).Nodup := by rw [hidx]; exact List.nodup_range
+    have hO' : ∀ r ∈ rs, r.rule.objectTermtype ≠ .literal → r.litType = none := by
+      intro r hr hlit
+      obtain ⟨i', q, hz, hrow⟩ := hrows r hr
+      have hq : q ∈ rules := (List.of_mem_zip hz).2
+      rw [hrow.rule] at hlit
+      rw [hrow.lit]
+      have := hO q hq hlit
+      simp [litTypeOf, this]
+    refine ⟨rs, a, b, rfl, ha, hb, hra, hrb, partial_rows_separated rs hnd hO' a b ha hb ?_⟩
+    rw [hra.idx, hrb.idx]
+    intro e
+    apply hne
+    simp [hi, hj, e]
+
+/-- the `enforce` switch, in terms of the mapping -/
+theorem enforceFor_P_rules (rules : List Rule) (rs : List PRule) (h : termInvariants rules = .ok rs) :
+    enforceFor .P rs = rules.all fun r => r.predicateMapType = .constant := by
+  have := (termInvariants_ok rules rs h).2.1
+  rw [← this, List.all_map]; rfl
+
+theorem enforceFor_G_rules (rules : List Rule) (rs : List PRule) (h : termInvariants rules = .ok rs) :
+    enforceFor .G rs = rules.all fun r => r.graphMapType = .constant := by
+  have := (termInvariants_ok rules rs h).2.1
+  rw [← this, List.all_map]; rfl
+
+/-! ### B4: lines -/
+
+/-- what follows the object term: language tag or datatype -/
+def LangSuffix (env : Env) (r : Rule) (row : Str → Option Str) (sfx : Str) : Prop :=
+  match r.langDatatype, r.langDatatypeMapType with
+  | some .languageMap, some mt => ∃ l, materializeTemplate env.cfg mt r.langDatatypeMapValue none [] [] row = .ok l ∧ sfx = ['@'] ++ l
+  | some .datatypeMap, some mt => ∃ d, materializeTemplate env.cfg mt r.langDatatypeMapValue (some .iri) [] [] row = .ok d ∧ sfx = ['^', '^'] ++ d
+  | _, _ => sfx = []
+
+def GraphTerm (env : Env) (r : Rule) (row : Str → Option Str) (g : Str) : Prop :=
+  if r.graphMapValue ≠ env.defaultGraph then materializeTemplate env.cfg r.graphMapType r.graphMapValue (some .iri) [] [] row = .ok g
+  else g = []
+
+theorem rowTriple_nquads (env : Env) (hf : env.fmt = .nquads) (r : Rule) (k : MapType) (v a : Str) (ρ : SRow) (line : Str)
+    (h : rowTriple env r k v a ρ = .ok line) :
+    ∃ s p o sfx g,
+      materializeTemplate env.cfg r.subjectMapType r.subjectMapValue (some r.subjectTermtype) [] [] (fun c => lookup c ρ) = .ok s ∧
+      materializeTemplate env.cfg r.predicateMapType r.predicateMapValue (some .iri) [] [] (fun c => lookup c ρ) = .ok p ∧
+      materializeTemplate env.cfg k v (some r.objectTermtype) (litDatatype r) a (fun c => lookup c ρ) = .ok o ∧
+      LangSuffix env r (fun c => lookup c ρ) sfx ∧ GraphTerm env r (fun c => lookup c ρ) g ∧
+      line = s ++ [' '] ++ p ++ [' '] ++ (o ++ sfx) ++ [' '] ++ g := by
+  unfold rowTriple at h
+  simp only [hf] at h
+  cases hs : materializeTemplate env.cfg r.subjectMapType r.subjectMapValue (some r.subjectTermtype) [] [] (fun c => lookup c ρ) with
+  | error e => simp [hs, bind, Except.bind] at h
+  | ok s =>
+  cases hp : materializeTemplate env.cfg r.predicateMapType r.predicateMapValue (some .iri) [] [] (fun c => lookup c ρ) with
+  | error e => simp [hs, hp, bind, Except.bind] at h
+  | ok p =>
+  cases ho : materializeTemplate env.cfg k v (some r.objectTermtype) (litDatatype r) a (fun c => lookup c ρ) with
+  | error e => simp [hs, hp, ho, bind, Except.bind] at h
+  | ok o =>
+  simp only [hs, hp, ho, bind, Except.bind] at h
+  have tail : ∀ t : Str, (if r.graphMapValue ≠ env.defaultGraph then
+            Except.bind (materializeTemplate env.cfg r.graphMapType r.graphMapValue (some TermType.iri) [] [] fun c => lookup c ρ)
+              (fun v_1 => (Except.ok (s ++ [' '] ++ p ++ [' '] ++ t ++ [' '] ++ v_1) : Except MatErr Str))
+          else Except.ok (s ++ [' '] ++ p ++ [' '] ++ t ++ [' '])) = Except.ok line →
+        ∃ g, GraphTerm env r (fun c => lookup c ρ) g ∧ line = s ++ [' '] ++ p ++ [' '] ++ t ++ [' '] ++ g := by
+    intro t ht
+    by_cases hg : r.graphMapValue ≠ env.defaultGraph
+    · rw [if_pos hg] at ht
+      cases hgm : materializeTemplate env.cfg r.graphMapType r.graphMapValue (some TermType.iri) [] [] fun c => lookup c ρ with
+      | error e => simp [hgm, Except.bind] at ht
+      | ok g =>
+        simp only [hgm, Except.bind, Except.ok.injEq] at ht
+        exact ⟨g, by unfold GraphTerm; rw [if_pos hg]; exact hgm, ht.symm⟩
+    · rw [if_neg hg] at ht
+      simp only [Except.ok.injEq] at ht
+      exact ⟨[], by unfold GraphTerm; rw [if_neg hg], by rw [← ht]; simp⟩
+  split at h
+  · rename_i mt hld hmt
+    cases hl : materializeTemplate env.cfg mt r.langDatatypeMapValue none [] [] fun c => lookup c ρ with
+    | error e => simp [hl] at h
+    | ok l =>
+      simp only [hl, pure, Except.pure] at h
+      obtain ⟨g, hg, hline⟩ := tail _ h
+      refine ⟨s, p, o, ['@'] ++ l, g, rfl, rfl, rfl, ?_, hg, by rw [hline]; simp⟩
+      unfold LangSuffix; rw [hld, hmt]; exact ⟨l, hl, rfl⟩
+  · rename_i mt hld hmt
+    cases hl : materializeTemplate env.cfg mt r.langDatatypeMapValue (some .iri) [] [] fun c => lookup c ρ with
+    | error e => simp [hl] at h
+    | ok l =>
+      simp only [hl, pure, Except.pure] at h
+      obtain ⟨g, hg, hline⟩ := tail _ h
+      refine ⟨s, p, o, ['^', '^'] ++ l, g, rfl, rfl, rfl, ?_, hg, by rw [hline]; simp⟩
+      unfold LangSuffix; rw [hld, hmt]; exact ⟨l, hl, rfl⟩
+  · rename_i h1 h2
+    simp only [pure, Except.pure] at h
+    obtain ⟨g, hg, hline⟩ := tail _ h
+    refine ⟨s, p, o, [], g, rfl, rfl, rfl, ?_, hg, by rw [hline]; simp⟩
+    unfold LangSuffix
+    split
+    · rename_i mt' e1 e2; exact absurd e2 (h1 mt' e1)
+    · rename_i mt' e1 e2; exact absurd e2 (h2 mt' e1)
+    · rfl
+
+/-- a string splits uniquely at the first occurrence of a character -/
+theorem split_first {x₁ x₂ r₁ r₂ : Str} {c : Char} (h : x₁ ++ c :: r₁ = x₂ ++ c :: r₂) (h1 : c ∉ x₁) (h2 : c ∉ x₂) :
+    x₁ = x₂ ∧ r₁ = r₂ := by
+  induction x₁ generalizing x₂ with
+  | nil =>
+    cases x₂ with
+    | nil => simpa using h
+    | cons e x₂ =>
+      simp only [List.nil_append, List.cons_append, List.cons.injEq] at h
+      exact absurd (by rw [h.1]; simp) h2
+  | cons d x₁ ih =>
+    cases x₂ with
+    | nil =>
+      simp only [List.nil_append, List.cons_append, List.cons.injEq] at h
+      exact absurd (by rw [← h.1]; simp) h1
+    | cons e x₂ =>
+      simp only [List.cons_append, List.cons.injEq] at h
+      obtain ⟨e1, e2⟩ := ih h.2 (fun hm => h1 (List.mem_cons_of_mem _ hm)) (fun hm => h2 (List.mem_cons_of_mem _ hm))
+      exact ⟨by rw [h.1, e1], e2⟩
+
+/-- … and at the last occurrence -/
+theorem split_last {x₁ x₂ g₁ g₂ : Str} {c : Char} (h : x₁ ++ c :: g₁ = x₂ ++ c :: g₂) (h1 : c ∉ g₁) (h2 : c ∉ g₂) :
+    x₁ = x₂ ∧ g₁ = g₂ := by
+  have hr := congrArg List.reverse h
+  simp only [List.reverse_append, List.reverse_cons, List.append_assoc, List.singleton_append] at hr
+  obtain ⟨e1, e2⟩ := split_first hr (by simpa using h1) (by simpa using h2)
+  exact ⟨List.reverse_inj.mp e2, List.reverse_inj.mp e1⟩
+
+/-- the term map that fills the object position: the rule's own object map, or the subject map of the join parent -/
+def objMapOf (rules : List Rule) (r : Rule) : MapType × Str × Str :=
+  if r.objectMapType = .parentTM then
+    match findRule rules r.objectMapValue with
+    | some parent => (parent.subjectMapType, parent.subjectMapValue, "parent_".toList)
+    | none => (r.objectMapType, r.objectMapValue, [])
+  else (r.objectMapType, r.objectMapValue, [])
+
+theorem mapM_ok_mem {α β ε : Type} (f : α → Except ε β) (l : List α) (ys : List β) (h : l.mapM f = .ok ys) :
+    ∀ y ∈ ys, ∃ x ∈ l, f x = .ok y := by
+  induction l generalizing ys with
+  | nil => rw [mapM_except_nil] at h; cases h; intro y hy; cases hy
+  | cons a l ih =>
+    rw [mapM_except_cons] at h
+    cases ha : f a with
+    | error e => simp [ha] at h
+    | ok b =>
+      cases hl : l.mapM f with
+      | error e => simp [ha, hl] at h
+      | ok zs =>
+        simp only [ha, hl, Except.ok.injEq] at h
+        subst h
+        intro y hy
+        rcases List.mem_cons.mp hy with rfl | hy
+        · exact ⟨a, by simp, ha⟩
+        · obtain ⟨x, hx, hfx⟩ := ih zs hl y hy
+          exact ⟨x, List.mem_cons_of_mem _ hx, hfx⟩
+
+/-- every statement of a rule is `rowTriple` of some row, with the effective object map -/
+theorem evalRule_mem (env : Env) (rules : List Rule) (r : Rule) (out : List Str) (h : evalRule env rules r = .ok out) :
+    ∀ x ∈ out, ∃ ρ, rowTriple env r (objMapOf rules r).1 (objMapOf rules r).2.1 (objMapOf rules r).2.2 ρ = .ok x := by
+  unfold evalRule at h
+  split at h
+  · rename_i hc
+    have hm : r.objectMapType = .constant := by
+      simp only [isAllConstant, Bool.and_eq_true, decide_eq_true_eq] at hc; exact hc.1.2
+    cases ht : rowTriple env r r.objectMapType r.objectMapValue [] [] with
+    | error e => simp [ht, bind, Except.bind] at h
+    | ok t =>
+      simp only [ht, bind, Except.bind, pure, Except.pure, Except.ok.injEq] at h
+      subst h
+      intro x hx
+      simp only [List.mem_singleton] at hx
+      subst hx
+      exact ⟨[], by simp only [objMapOf, hm, reduceCtorEq, ↓reduceIte]; rw [← hm]; exact ht⟩
+  · split at h
+    · rename_i hptm
+      cases hf : findRule rules r.objectMapValue with
+      | none => simp [hf] at h
+      | some parent =>
+        simp only [hf] at h
+        cases hd : preprocess env.na (refsOfRule r) (env.table r) with
+        | error e => simp [hd, bind, Except.bind] at h
+        | ok data =>
+          cases hpd : preprocess env.na (refsOfRule parent true ++ r.objectJoin.map (·.2)) (env.table parent) with
+          | error e => simp [hd, hpd, bind, Except.bind] at h
+          | ok pdata =>
+            simp only [hd, hpd, bind, Except.bind] at h
+            intro x hx
+            obtain ⟨ρ, _, hρ⟩ := mapM_ok_mem _ _ _ h x hx
+            exact ⟨ρ, by simp only [objMapOf, hptm, ↓reduceIte, hf]; exact hρ⟩
+    · rename_i hptm
+      cases hd : preprocess env.na (refsOfRule r) (env.table r) with
+      | error e => simp [hd, bind, Except.bind] at h
+      | ok data =>
+        simp only [hd, bind, Except.bind] at h
+        intro x hx
+        obtain ⟨ρ, _, hρ⟩ := mapM_ok_mem _ _ _ h x hx
+        exact ⟨ρ, by simp only [objMapOf, hptm, ↓reduceIte]; exact hρ⟩
+
+/-- the partitioner's object invariant is the invariant of the effective object map -/
+theorem objInv_objMapOf (rules : List Rule) (r : Rule) (o : Str) (h : objInv rules r = .ok o) :
+    invOf (objMapOf rules r).1 (objMapOf rules r).2.1 = .ok o := by
+  unfold objInv at h
+  unfold objMapOf
+  by_cases hm : r.objectMapType = .parentTM
+  · simp only [hm, ↓reduceIte] at h ⊢
+    change (match findRule rules r.objectMapValue with
+      | some parent => invOf parent.subjectMapType parent.subjectMapValue
+      | none => Except.error (PartErr.noParent r.objectMapValue)) = Except.ok o at h
+    cases hf : findRule rules r.objectMapValue with
+    | none => simp [hf] at h
+    | some parent => simpa [hf] using h
+  · simp only [hm, ↓reduceIte]
+    cases hk : r.objectMapType <;> simp_all
+
+/-- What the proof needs of a rule.  `clean*`: no escapes in constant/template maps (otherwise the rendered term need
+    not start with the invariant, see `C01_F1`); `space*`: the rendered subject, predicate and graph contain no space
+    (true for template-valued IRIs, false for reference-valued ones, `C05_F1`); `lang*`: language/datatype only on
+    literals, well-formed, and rendered without a double quote. -/
+structure TokenSafe (env : Env) (rules : List Rule) (r : Rule) : Prop where
+  noStarS : r.subjectTermtype ≠ .star
+  noStarO : r.objectTermtype ≠ .star
+  cleanS : CleanMap r.subjectMapType r.subjectMapValue
+  cleanP : CleanMap r.predicateMapType r.predicateMapValue
+  cleanO : CleanMap (objMapOf rules r).1 (objMapOf rules r).2.1
+  cleanG : CleanMap r.graphMapType r.graphMapValue
+  spaceS : ∀ row t, materializeTemplate env.cfg r.subjectMapType r.subjectMapValue (some r.subjectTermtype) [] [] row = .ok t → ' ' ∉ t
+  spaceP : ∀ row t, materializeTemplate env.cfg r.predicateMapType r.predicateMapValue (some .iri) [] [] row = .ok t → ' ' ∉ t
+  spaceG : ∀ row t, materializeTemplate env.cfg r.graphMapType r.graphMapValue (some .iri) [] [] row = .ok t → ' ' ∉ t
+  langOnLiteral : r.objectTermtype ≠ .literal → r.langDatatype = none
+  langWF : r.langDatatype.isSome = r.langDatatypeMapType.isSome
+  langClean : ∀ mt, r.langDatatypeMapType = some mt → mt ≠ .reference → mt ≠ .template →
+    '\\' ∉ r.langDatatypeMapValue ∧ '{' ∉ r.langDatatypeMapValue
+  langQuote : ∀ row sfx, LangSuffix env r row sfx → '"' ∉ sfx
+
+/-- two IRI terms whose maps are separated by the predicate/graph scan differ, whatever the rows -/
+theorem iriTerm_ne (cfg : TermCfg) (enf : Bool) (k₁ k₂ : MapType) (v₁ v₂ inv₁ inv₂ : Str)
+    (c₁ : CleanMap k₁ v₁) (c₂ : CleanMap k₂ v₂) (hi₁ : invOf k₁ v₁ = .ok inv₁) (hi₂ : invOf k₂ v₂ = .ok inv₂)
+    (hun : Unrel (relOf enf) inv₁ inv₂) (henf : enf = true → k₁ = .constant ∧ k₂ = .constant)
+    (row₁ row₂ : Str → Option Str) (t₁ t₂ : Str)
+    (h1 : materializeTemplate cfg k₁ v₁ (some .iri) [] [] row₁ = .ok t₁)
+    (h2 : materializeTemplate cfg k₂ v₂ (some .iri) [] [] row₂ = .ok t₂) : t₁ ≠ t₂ := by
+  cases enf with
+  | false =>
+    obtain ⟨r₁, e₁⟩ := render_prefix _ _ _ _ _ _ _ _ _ c₁ hi₁ h1
+    obtain ⟨r₂, e₂⟩ := render_prefix _ _ _ _ _ _ _ _ _ c₂ hi₂ h2
+    rw [e₁, e₂]
+    exact wrapTerm_ne_of_incomp _ hun.1 hun.2
+  | true =>
+    obtain ⟨rfl, rfl⟩ := henf rfl
+    rw [render_noref cfg .constant (by decide) v₁ _ _ _ _ (c₁.2 rfl).1 (c₁.2 rfl).2] at h1
+    rw [render_noref cfg .constant (by decide) v₂ _ _ _ _ (c₂.2 rfl).1 (c₂.2 rfl).2] at h2
+    simp only [Except.ok.injEq] at h1 h2
+    simp only [invOf, Except.ok.injEq] at hi₁ hi₂
+    subst hi₁ hi₂ h1 h2
+    intro e
+    exact (unrel_relOf_true.mp hun) (wrapTerm_injective _ e)
+
+theorem subj_ne (env : Env) (rules : List Rule) (r₁ r₂ : Rule) (a b : PRule) (i j : Nat)
+    (ha : RowOf rules i r₁ a) (hb : RowOf rules j r₂ b) (t₁ : TokenSafe env rules r₁) (t₂ : TokenSafe env rules r₂)
+    (hsep : SepS a b) (row₁ row₂ : Str → Option Str) (s₁ s₂ : Str)
+    (h1 : materializeTemplate env.cfg r₁.subjectMapType r₁.subjectMapValue (some r₁.subjectTermtype) [] [] row₁ = .ok s₁)
+    (h2 : materializeTemplate env.cfg r₂.subjectMapType r₂.subjectMapValue (some r₂.subjectTermtype) [] [] row₂ = .ok s₂) :
+    s₁ ≠ s₂ := by
+  unfold SepS at hsep
+  rw [ha.rule, hb.rule] at hsep
+  obtain ⟨q₁, e₁⟩ := render_prefix _ _ _ _ _ _ _ _ _ t₁.cleanS ha.s h1
+  obtain ⟨q₂, e₂⟩ := render_prefix _ _ _ _ _ _ _ _ _ t₂.cleanS hb.s h2
+  rw [e₁, e₂]
+  by_cases htt : r₁.subjectTermtype = r₂.subjectTermtype
+  · rcases hsep with ⟨h, h'⟩ | ⟨h, h'⟩ | ⟨_, _, hinc⟩
+    · exact absurd (htt ▸ h) h'
+    · exact absurd (htt ▸ h') h
+    · rw [htt]; exact wrapTerm_ne_of_incomp _ hinc.1 hinc.2
+  · exact wrapTerm_ne_of_type htt t₁.noStarS t₂.noStarS _ _
+
+theorem graphTerm_nospace (env : Env) (rules : List Rule) (r : Rule) (t : TokenSafe env rules r)
+    (row : Str → Option Str) (g : Str) (h : GraphTerm env r row g) : ' ' ∉ g := by
+  unfold GraphTerm at h
+  split at h
+  · exact t.spaceG _ _ h
+  · subst h; simp
+
+theorem graph_ne (env : Env) (rules : List Rule) (rs : List PRule) (r₁ r₂ : Rule) (a b : PRule) (i j : Nat)
+    (ha : RowOf rules i r₁ a) (hb : RowOf rules j r₂ b) (t₁ : TokenSafe env rules r₁) (t₂ : TokenSafe env rules r₂)
+    (hsep : SepG rs a b)
+    (henf : enforceFor .G rs = true → r₁.graphMapType = .constant ∧ r₂.graphMapType = .constant)
+    (row₁ row₂ : Str → Option Str) (g₁ g₂ : Str)
+    (h1 : GraphTerm env r₁ row₁ g₁) (h2 : GraphTerm env r₂ row₂ g₂) : g₁ ≠ g₂ := by
+  unfold GraphTerm at h1 h2
+  unfold SepG at hsep
+  by_cases d₁ : r₁.graphMapValue ≠ env.defaultGraph <;> by_cases d₂ : r₂.graphMapValue ≠ env.defaultGraph
+  · rw [if_pos d₁] at h1; rw [if_pos d₂] at h2
+    exact iriTerm_ne _ _ _ _ _ _ _ _ t₁.cleanG t₂.cleanG ha.g hb.g hsep henf _ _ _ _ h1 h2
+  · rw [if_pos d₁] at h1; rw [if_neg d₂] at h2
+    obtain ⟨u, _, rfl⟩ := materializeTemplate_ok h1
+    subst h2; simp [wrapTerm]
+  · rw [if_neg d₁] at h1; rw [if_pos d₂] at h2
+    obtain ⟨u, _, rfl⟩ := materializeTemplate_ok h2
+    subst h1; simp [wrapTerm]
+  · -- both maps name the default graph: their invariants are prefixes of one string, hence related
+    exfalso
+    have e₁ : r₁.graphMapValue = env.defaultGraph := Decidable.not_not.mp d₁
+    have e₂ : r₂.graphMapValue = env.defaultGraph := Decidable.not_not.mp d₂
+    have p₁ := invOf_prefix t₁.cleanG ha.g
+    have p₂ := invOf_prefix t₂.cleanG hb.g
+    rw [e₁] at p₁; rw [e₂] at p₂
+    cases hE : enforceFor .G rs with
+    | false =>
+      rw [hE] at hsep
+      rcases List.prefix_or_prefix_of_prefix p₁ p₂ with p | p
+      · have : startsWith b.gInv a.gInv = true := List.isPrefixOf_iff_prefix.mpr p
+        have h' := hsep.2; simp only [relOf] at h'; rw [this] at h'; cases h'
+      · have : startsWith a.gInv b.gInv = true := List.isPrefixOf_iff_prefix.mpr p
+        have h' := hsep.1; simp only [relOf] at h'; rw [this] at h'; cases h'
+    | true =>
+      rw [hE] at hsep
+      obtain ⟨k₁, k₂⟩ := henf hE
+      have g₁' := ha.g; have g₂' := hb.g
+      rw [k₁] at g₁'; rw [k₂] at g₂'
+      simp only [invOf, Except.ok.injEq] at g₁' g₂'
+      exact (unrel_relOf_true.mp hsep) (by rw [← g₁', ← g₂', e₁, e₂])
+
+theorem langSuffix_cases (env : Env) (r : Rule) (row : Str → Option Str) (sfx : Str)
+    (hwf : r.langDatatype.isSome = r.langDatatypeMapType.isSome) (h : LangSuffix env r row sfx) :
+    (r.langDatatype = none ∧ sfx = []) ∨
+    (r.langDatatype = some .languageMap ∧ ∃ mt l, r.langDatatypeMapType = some mt ∧
+      materializeTemplate env.cfg mt r.langDatatypeMapValue none [] [] row = .ok l ∧ sfx = '@' :: l) ∨
+    (r.langDatatype = some .datatypeMap ∧ ∃ mt d, r.langDatatypeMapType = some mt ∧
+      materializeTemplate env.cfg mt r.langDatatypeMapValue (some .iri) [] [] row = .ok d ∧ sfx = '^' :: '^' :: d) := by
+  unfold LangSuffix at h
+  cases hld : r.langDatatype with
+  | none => left; simp only [hld] at h; exact ⟨rfl, h⟩
+  | some k =>
+    cases hmt : r.langDatatypeMapType with
+    | none => rw [hld, hmt] at hwf; cases hwf
+    | some mt =>
+      cases k with
+      | languageMap =>
+        right; left
+        simp only [hld, hmt] at h
+        obtain ⟨l, hl, rfl⟩ := h
+        exact ⟨rfl, mt, l, rfl, hl, rfl⟩
+      | datatypeMap =>
+        right; right
+        simp only [hld, hmt] at h
+        obtain ⟨l, hl, rfl⟩ := h
+        exact ⟨rfl, mt, l, rfl, hl, rfl⟩
+
+theorem wrapTerm_append_ne_of_type {t₁ t₂ : TermType} (h : t₁ ≠ t₂) (hs₁ : t₁ ≠ .star) (hs₂ : t₂ ≠ .star)
+    (x y u w : Str) : wrapTerm (some t₁) x ++ u ≠ wrapTerm (some t₂) y ++ w := by
+  cases t₁ <;> cases t₂ <;> simp_all [wrapTerm]
+
+theorem not_dynamic (rules : List Rule) (h : dynamicLit rules = false) (r : Rule) (hr : r ∈ rules) :
+    r.langDatatypeMapType ≠ some .reference ∧ r.langDatatypeMapType ≠ some .template := by
+  unfold dynamicLit at h
+  rw [List.any_eq_false] at h
+  have := h r hr
+  simpa using this
+
+/-- the language/datatype suffix of a rule with a non-dynamic map is the constant itself -/
+theorem suffix_value (env : Env) (rules : List Rule) (r : Rule) (t : TokenSafe env rules r) (hr : r ∈ rules)
+    (hd : dynamicLit rules = false) (mt : MapType) (hmt : r.langDatatypeMapType = some mt) (tt : Option TermType)
+    (row : Str → Option Str) (l : Str)
+    (h : materializeTemplate env.cfg mt r.langDatatypeMapValue tt [] [] row = .ok l) :
+    l = wrapTerm tt r.langDatatypeMapValue := by
+  obtain ⟨n1, n2⟩ := not_dynamic rules hd r hr
+  have hk : mt ≠ .reference := by intro e; rw [hmt, e] at n1; exact n1 rfl
+  have hk' : mt ≠ .template := by intro e; rw [hmt, e] at n2; exact n2 rfl
+  obtain ⟨c1, c2⟩ := t.langClean mt hmt hk hk'
+  rw [render_noref env.cfg mt hk _ _ _ _ _ c1 c2] at h
+  simp only [Except.ok.injEq] at h
+  exact h.symm
+
+theorem obj_ne (env : Env) (rules : List Rule) (r₁ r₂ : Rule) (hr₁ : r₁ ∈ rules) (hr₂ : r₂ ∈ rules) (a b : PRule)
+    (i j : Nat) (ha : RowOf rules i r₁ a) (hb : RowOf rules j r₂ b)
+    (t₁ : TokenSafe env rules r₁) (t₂ : TokenSafe env rules r₂) (hsep : SepO a b)
+    (row₁ row₂ : Str → Option Str) (dt₁ dt₂ o₁ o₂ sfx₁ sfx₂ : Str)
+    (h1 : materializeTemplate env.cfg (objMapOf rules r₁).1 (objMapOf rules r₁).2.1 (some r₁.objectTermtype) dt₁
+      (objMapOf rules r₁).2.2 row₁ = .ok o₁)
+    (h2 : materializeTemplate env.cfg (objMapOf rules r₂).1 (objMapOf rules r₂).2.1 (some r₂.objectTermtype) dt₂
+      (objMapOf rules r₂).2.2 row₂ = .ok o₂)
+    (l1 : LangSuffix env r₁ row₁ sfx₁) (l2 : LangSuffix env r₂ row₂ sfx₂) : o₁ ++ sfx₁ ≠ o₂ ++ sfx₂ := by
+  unfold SepO at hsep
+  rw [ha.rule, hb.rule] at hsep
+  rcases hsep with htt | ⟨hl₁, hl₂, hlit⟩ | ⟨htt, hnl, _, hinc⟩
+  · obtain ⟨u₁, _, rfl⟩ := materializeTemplate_ok h1
+    obtain ⟨u₂, _, rfl⟩ := materializeTemplate_ok h2
+    exact wrapTerm_append_ne_of_type htt t₁.noStarO t₂.noStarO _ _ _ _
+  · -- two literals of different `literal_type`
+    obtain ⟨u₁, _, rfl⟩ := materializeTemplate_ok h1
+    obtain ⟨u₂, _, rfl⟩ := materializeTemplate_ok h2
+    rw [hl₁, hl₂]
+    intro e
+    have e' : ('"' :: u₁) ++ '"' :: sfx₁ = ('"' :: u₂) ++ '"' :: sfx₂ := by simpa [wrapTerm] using e
+    obtain ⟨_, esfx⟩ := split_last e' (t₁.langQuote _ _ l1) (t₂.langQuote _ _ l2)
+    apply hlit
+    rw [ha.lit, hb.lit]
+    unfold litTypeOf
+    rcases langSuffix_cases env r₁ row₁ sfx₁ t₁.langWF l1 with ⟨k₁, s₁⟩ | ⟨k₁, mt₁, x₁, m₁, hx₁, s₁⟩ | ⟨k₁, mt₁, x₁, m₁, hx₁, s₁⟩ <;>
+    rcases langSuffix_cases env r₂ row₂ sfx₂ t₂.langWF l2 with ⟨k₂, s₂⟩ | ⟨k₂, mt₂, x₂, m₂, hx₂, s₂⟩ | ⟨k₂, mt₂, x₂, m₂, hx₂, s₂⟩ <;>
+    (subst s₁ s₂; simp at esfx)
+    · simp [k₁, k₂]
+    · cases hd : dynamicLit rules with
+      | true => simp [k₁, k₂]
+      | false =>
+        have v₁ := suffix_value env rules r₁ t₁ hr₁ hd mt₁ m₁ _ _ _ hx₁
+        have v₂ := suffix_value env rules r₂ t₂ hr₂ hd mt₂ m₂ _ _ _ hx₂
+        have : r₁.langDatatypeMapValue = r₂.langDatatypeMapValue := by
+          have := esfx; rw [v₁, v₂] at this; exact wrapTerm_injective _ (by simpa using this)
+        simp [k₁, k₂, this]
+    · cases hd : dynamicLit rules with
+      | true => simp [k₁, k₂]
+      | false =>
+        have v₁ := suffix_value env rules r₁ t₁ hr₁ hd mt₁ m₁ _ _ _ hx₁
+        have v₂ := suffix_value env rules r₂ t₂ hr₂ hd mt₂ m₂ _ _ _ hx₂
+        have : r₁.langDatatypeMapValue = r₂.langDatatypeMapValue := by
+          have := esfx; rw [v₁, v₂] at this; exact wrapTerm_injective _ (by simpa using this)
+        simp [k₁, k₂, this]
+  · -- same non-literal type: no suffix, prefix-incomparable invariants
+    have n₁ := t₁.langOnLiteral hnl
+    have n₂ := t₂.langOnLiteral (htt ▸ hnl)
+    have s₁ : sfx₁ = [] := by
+      rcases langSuffix_cases env r₁ row₁ sfx₁ t₁.langWF l1 with ⟨_, s⟩ | ⟨k, _⟩ | ⟨k, _⟩
+      · exact s
+      · rw [n₁] at k; cases k
+      · rw [n₁] at k; cases k
+    have s₂ : sfx₂ = [] := by
+      rcases langSuffix_cases env r₂ row₂ sfx₂ t₂.langWF l2 with ⟨_, s⟩ | ⟨k, _⟩ | ⟨k, _⟩
+      · exact s
+      · rw [n₂] at k; cases k
+      · rw [n₂] at k; cases k
+    subst s₁ s₂
+    obtain ⟨q₁, e₁⟩ := render_prefix _ _ _ _ _ _ _ _ _ t₁.cleanO (objInv_objMapOf rules r₁ _ ha.o) h1
+    obtain ⟨q₂, e₂⟩ := render_prefix _ _ _ _ _ _ _ _ _ t₂.cleanO (objInv_objMapOf rules r₂ _ hb.o) h2
+    rw [e₁, e₂, htt, List.append_nil, List.append_nil]
+    exact wrapTerm_ne_of_incomp _ hinc.1 hinc.2
+
+/-- separated, token-safe rules never print the same N-QUADS line, whatever the two rows -/
+theorem lines_ne (env : Env) (hf : env.fmt = .nquads) (rules : List Rule) (rs : List PRule)
+    (hrs : termInvariants rules = .ok rs) (r₁ r₂ : Rule) (hr₁ : r₁ ∈ rules) (hr₂ : r₂ ∈ rules) (a b : PRule) (i j : Nat)
+    (ha : RowOf rules i r₁ a) (hb : RowOf rules j r₂ b) (t₁ : TokenSafe env rules r₁) (t₂ : TokenSafe env rules r₂)
+    (hsep : Separated rs a b) (ρ₁ ρ₂ : SRow) (x y : Str)
+    (h1 : rowTriple env r₁ (objMapOf rules r₁).1 (objMapOf rules r₁).2.1 (objMapOf rules r₁).2.2 ρ₁ = .ok x)
+    (h2 : rowTriple env r₂ (objMapOf rules r₂).1 (objMapOf rules r₂).2.1 (objMapOf rules r₂).2.2 ρ₂ = .ok y) : x ≠ y := by
+  obtain ⟨s₁, p₁, o₁, sfx₁, g₁, hs1, hp1, ho1, hl1, hg1, e1⟩ := rowTriple_nquads env hf _ _ _ _ _ _ h1
+  obtain ⟨s₂, p₂, o₂, sfx₂, g₂, hs2, hp2, ho2, hl2, hg2, e2⟩ := rowTriple_nquads env hf _ _ _ _ _ _ h2
+  intro exy
+  have e : s₁ ++ ' ' :: (p₁ ++ ' ' :: ((o₁ ++ sfx₁) ++ ' ' :: g₁)) = s₂ ++ ' ' :: (p₂ ++ ' ' :: ((o₂ ++ sfx₂) ++ ' ' :: g₂)) := by
+    have := e1.symm.trans (exy.trans e2)
+    simpa using this
+  obtain ⟨es, e'⟩ := split_first e (t₁.spaceS _ _ hs1) (t₂.spaceS _ _ hs2)
+  obtain ⟨ep, e''⟩ := split_first e' (t₁.spaceP _ _ hp1) (t₂.spaceP _ _ hp2)
+  obtain ⟨eo, eg⟩ := split_last e'' (graphTerm_nospace env rules r₁ t₁ _ _ hg1) (graphTerm_nospace env rules r₂ t₂ _ _ hg2)
+  have hall : ∀ (P : Rule → Prop) [DecidablePred P], rules.all (fun r => decide (P r)) = true → P r₁ ∧ P r₂ := by
+    intro P _ h
+    rw [List.all_eq_true] at h
+    exact ⟨by simpa using h r₁ hr₁, by simpa using h r₂ hr₂⟩
+  rcases hsep with h | h | h | h
+  · exact subj_ne env rules r₁ r₂ a b i j ha hb t₁ t₂ h _ _ _ _ hs1 hs2 es
+  · refine iriTerm_ne _ _ _ _ _ _ _ _ t₁.cleanP t₂.cleanP ha.p hb.p h ?_ _ _ _ _ hp1 hp2 ep
+    intro henf
+    rw [enforceFor_P_rules rules rs hrs] at henf
+    exact hall (fun r => r.predicateMapType = .constant) henf
+  · exact obj_ne env rules r₁ r₂ hr₁ hr₂ a b i j ha hb t₁ t₂ h _ _ _ _ _ _ _ _ ho1 ho2 hl1 hl2 eo
+  · refine graph_ne env rules rs r₁ r₂ a b i j ha hb t₁ t₂ h ?_ _ _ _ _ hg1 hg2 eg
+    intro henf
+    rw [enforceFor_G_rules rules rs hrs] at henf
+    exact hall (fun r => r.graphMapType = .constant) henf
+
+/-- **C03 (PARTIAL-AGGREGATIONS, N-QUADS).** Two token-safe rules that received different labels produce disjoint sets of
+    statements — for every content of the data sources (`env` is arbitrary). -/
+theorem C03_disjoint_partial (env : Env) (hf : env.fmt = .nquads) (rules : List Rule) (ls : List Str)
+    (hp : partitionLabels .partialAggregations rules = .ok ls)
+    (hsafe : ∀ r ∈ rules, TokenSafe env rules r)
+    (i j : Nat) (hi : i < rules.length) (hj : j < rules.length) (hne : ls[i]? ≠ ls[j]?)
+    (out₁ out₂ : List Str) (h₁ : evalRule env rules rules[i] = .ok out₁) (h₂ : evalRule env rules rules[j] = .ok out₂) :
+    ∀ x ∈ out₁, x ∉ out₂ := by
+  intro x hx hx'
+  obtain ⟨rs, a, b, hrs, _, _, hra, hrb, hsep⟩ := C03_partial_separation rules ls hp
+    (fun r hr => (hsafe r hr).langOnLiteral) i j hi hj hne
+  obtain ⟨ρ₁, hρ₁⟩ := evalRule_mem env rules _ _ h₁ x hx
+  obtain ⟨ρ₂, hρ₂⟩ := evalRule_mem env rules _ _ h₂ x hx'
+  have m₁ : rules[i] ∈ rules := List.getElem_mem hi
+  have m₂ : rules[j] ∈ rules := List.getElem_mem hj
+  exact lines_ne env hf rules rs hrs _ _ m₁ m₂ a b i j hra hrb (hsafe _ m₁) (hsafe _ m₂) hsep ρ₁ ρ₂ x x hρ₁ hρ₂ rfl
+
+/-! ### B6: MAXIMAL -/
+
+theorem separated_of_sepAt (rs : List PRule) (pos : Pos) (a b : PRule)
+    (h : SepAt (enforceFor .P rs) (enforceFor .G rs) pos a b) : Separated rs a b := by
+  cases pos with
+  | S => exact Or.inl h
+  | P => exact Or.inr (Or.inl h)
+  | O => exact Or.inr (Or.inr (Or.inl h))
+  | G => exact Or.inr (Or.inr (Or.inr h))
+
+/-- rows of `_get_term_invariants` to which MAXIMAL gives different labels are separated -/
+theorem maximal_rows_separated (rs : List PRule) (hnd : (rs.map (·.idx)).Nodup) (hlab : ∀ r ∈ rs, r.label = [])
+    (hO : ∀ r ∈ rs, r.rule.objectTermtype ≠ .literal → r.litType = none)
+    (a b : PRule) (ha : a ∈ rs) (hb : b ∈ rs)
+    (hne : componentOf (maximal rs) a.idx ≠ componentOf (maximal rs) b.idx) : Separated rs a b := by
+  obtain ⟨o, _, hmax⟩ := maximal_eq rs
+  have h0 : LabelsSeparate (enforceFor .P rs) (enforceFor .G rs) rs := by
+    intro x hx y hy hxy
+    exact absurd ((hlab x hx).trans (hlab y hy).symm) hxy
+  obtain ⟨hsep, hcore⟩ := maximalFor_labelsSeparate o rs hO h0
+  have hperm := (maximalFor_spec o rs 0 (fun _ _ => Nat.zero_le _)).1
+  have hnd' : ((maximal rs).map (·.1)).Nodup := by
+    rw [hmax, List.map_map]
+    exact hperm.nodup_iff.mpr hnd
+  -- the row of the winning run with a given index
+  have row : ∀ r ∈ rs, ∃ r' ∈ maximalFor o rs, core r' = core r ∧ componentOf (maximal rs) r.idx = r'.label.drop 1 := by
+    intro r hr
+    have : r.idx ∈ (maximalFor o rs).map (·.idx) := hperm.mem_iff.mpr (List.mem_map.mpr ⟨r, hr, rfl⟩)
+    obtain ⟨r', hr', hidx⟩ := List.mem_map.mp this
+    obtain ⟨r0, hr0, e⟩ := hcore r' hr'
+    have hidx0 : r0.idx = r.idx := by
+      have : r'.idx = r0.idx := show (core r').idx = (core r0).idx from congrArg PRule.idx e
+      rw [← this, hidx]
+    have : r0 = r := by
+      -- distinct indices
+      have key : ∀ (l : List PRule), (l.map (·.idx)).Nodup → ∀ u ∈ l, ∀ v ∈ l, u.idx = v.idx → u = v := by
+        intro l
+        induction l with
+        | nil => intro _ u hu; cases hu
+        | cons w l ih =>
+          intro hn u hu v hv huv
+          rw [List.map_cons, List.nodup_cons] at hn
+          rcases List.mem_cons.mp hu with hu' | hu' <;> rcases List.mem_cons.mp hv with hv' | hv'
+          · rw [hu', hv']
+          · exact absurd (List.mem_map.mpr ⟨v, hv', by rw [← huv, hu']⟩ : w.idx ∈ l.map (·.idx)) hn.1
+          · exact absurd (List.mem_map.mpr ⟨u, hu', by rw [huv, hv']⟩ : w.idx ∈ l.map (·.idx)) hn.1
+          · exact ih hn.2 u hu' v hv' huv
+      exact key rs hnd r0 hr0 r hr hidx0
+    subst this
+    refine ⟨r', hr', e, ?_⟩
+    apply componentOf_eq hnd'
+    rw [hmax]
+    exact List.mem_map.mpr ⟨r', hr', by rw [hidx]⟩
+  obtain ⟨a', ha', ea, ca⟩ := row a ha
+  obtain ⟨b', hb', eb, cb⟩ := row b hb
+  rw [ca, cb] at hne
+  have hl : a'.label ≠ b'.label := fun e => hne (by rw [e])
+  obtain ⟨pos, hs⟩ := hsep a' ha' b' hb' hl
+  apply separated_of_sepAt rs pos
+  rw [← sepAt_core] at hs ⊢
+  rw [ea, eb] at hs
+  exact hs
+
+/-- **B6.** The same separation for MAXIMAL (whatever the winning ordering). -/
+theorem C03_maximal_separation (rules : List Rule) (ls : List Str)
+    (hp : partitionLabels .maximal rules = .ok ls)
+    (hO : ∀ r ∈ rules, r.objectTermtype ≠ .literal → r.langDatatype = none)
+    (i j : Nat) (hi : i < rules.length) (hj : j < rules.length) (hne : ls[i]? ≠ ls[j]?) :
+    ∃ rs a b, termInvariants rules = .ok rs ∧ a ∈ rs ∧ b ∈ rs ∧
+      RowOf rules i rules[i] a ∧ RowOf rules j rules[j] b ∧ Separated rs a b := by
+  unfold partitionLabels at hp
+  cases ht : termInvariants rules with
+  | error e => simp [ht, bind, Except.bind] at hp
+  | ok rs =>
+    simp only [ht, bind, Except.bind, pure, Except.pure, Except.ok.injEq] at hp
+    subst hp
+    obtain ⟨hidx, hrule, hrows⟩ := termInvariants_ok rules rs ht
+    obtain ⟨a, ha, hra⟩ := row_of_index rules rs ht i hi
+    obtain ⟨b, hb, hrb⟩ := row_of_index rules rs ht j hj
+    have hnd : (rs.map (·.idx)).Nodup := by rw [hidx]; exact List.nodup_range
+    have hO' : ∀ r ∈ rs, r.rule.objectTermtype ≠ .literal → r.litType = none := by
+      intro r hr hlit
+      obtain ⟨i', q, hz, hrow⟩ := hrows r hr
+      have hq : q ∈ rules := (List.of_mem_zip hz).2
+      rw [hrow.rule] at hlit
+      rw [hrow.lit]
+      have := hO q hq hlit
+      simp [litTypeOf, this]
+    have hlab : ∀ r ∈ rs, r.label = [] := by
+      intro r hr
+      obtain ⟨_, _, _, hrow⟩ := hrows r hr
+      exact hrow.label
+    refine ⟨rs, a, b, rfl, ha, hb, hra, hrb, maximal_rows_separated rs hnd hlab hO' a b ha hb ?_⟩
+    rw [hra.idx, hrb.idx]
+    intro e
+    apply hne
+    simp [hi, hj, e]
+
+/-! ### syntactic conditions that imply `TokenSafe` -/
+
+theorem pct_nospace (safe v : Str) (hs : ' ' ∉ safe) : ' ' ∉ pctEncode safe v := by
+  intro h
+  rcases pctEncode_alphabet safe v ' ' h with h | h | h | h
+  · revert h; decide
+  · exact hs (by simpa using h)
+  · revert h; decide
+  · revert h; decide
+
+/-- a template-valued IRI without escapes and without a space in its fixed part contains no space: the values are
+    percent-encoded -/
+theorem iri_template_nospace (cfg : TermCfg) (value : Str) (hv : '\\' ∉ value) (hsp : ' ' ∉ value)
+    (hsafe : ' ' ∉ cfg.safe) (dt alias : Str) (row : Str → Option Str) (t : Str)
+    (h : materializeTemplate cfg .template value (some .iri) dt alias row = .ok t) : ' ' ∉ t := by
+  obtain ⟨s, hs, rfl⟩ := materializeTemplate_ok h
+  simp only [reduceCtorEq, ↓reduceIte, unescape_escapeFree hv] at hs
+  have hc := loop_chars _ _ _ _ _ _ _ _ _ hs
+  intro hmem
+  simp only [wrapTerm, List.mem_append, List.mem_cons, List.mem_nil_iff, or_false, Char.reduceEq, false_or] at hmem
+  rcases hc ' ' hmem with h | h | ⟨v, h⟩
+  · cases h
+  · exact hsp h
+  · simp only [transformValue, decide_true, ↓reduceIte] at h
+    exact pct_nospace _ _ hsafe h
+
+theorem noref_nospace (cfg : TermCfg) (kind : MapType) (hk : kind ≠ .reference) (value : Str) (tt : TermType)
+    (htt : tt ≠ .star) (h1 : '\\' ∉ value) (h2 : '{' ∉ value) (hsp : ' ' ∉ value)
+    (dt alias : Str) (row : Str → Option Str) (t : Str)
+    (h : materializeTemplate cfg kind value (some tt) dt alias row = .ok t) : ' ' ∉ t := by
+  rw [render_noref cfg kind hk value _ _ _ _ h1 h2] at h
+  simp only [Except.ok.injEq] at h
+  subst h
+  cases tt <;> simp_all [wrapTerm]
+
+/-- a term map that can be shown token-safe from the mapping alone: a clean constant without space, or a clean
+    template for an IRI without space in its fixed part -/
+def SynMap (kind : MapType) (value : Str) (tt : TermType) : Prop :=
+  (kind = .constant ∧ '\\' ∉ value ∧ '{' ∉ value ∧ ' ' ∉ value ∧ tt ≠ .star) ∨
+  (kind = .template ∧ tt = .iri ∧ EscapeFree value ∧ ' ' ∉ value)
+
+theorem SynMap.clean {kind : MapType} {value : Str} {tt : TermType} (h : SynMap kind value tt) : CleanMap kind value := by
+  rcases h with ⟨rfl, a, b, _, _⟩ | ⟨rfl, _, a, _⟩
+  · exact ⟨(by intro e; cases e), fun _ => ⟨a, b⟩⟩
+  · exact ⟨fun _ => a, (by intro e; cases e)⟩
+
+theorem SynMap.nospace {kind : MapType} {value : Str} {tt : TermType} (h : SynMap kind value tt) (cfg : TermCfg)
+    (hsafe : ' ' ∉ cfg.safe) (dt alias : Str) (row : Str → Option Str) (t : Str)
+    (hm : materializeTemplate cfg kind value (some tt) dt alias row = .ok t) : ' ' ∉ t := by
+  rcases h with ⟨rfl, a, b, c, d⟩ | ⟨rfl, rfl, a, c⟩
+  · exact noref_nospace cfg _ (by decide) value tt d a b c _ _ _ _ hm
+  · exact iri_template_nospace cfg value a.1 c hsafe _ _ _ _ hm
+
+/-- a rule that is token-safe by inspection of the mapping -/
+structure SynSafe (env : Env) (rules : List Rule) (r : Rule) : Prop where
+  safe : ' ' ∉ env.cfg.safe
+  subj : SynMap r.subjectMapType r.subjectMapValue r.subjectTermtype
+  pred : SynMap r.predicateMapType r.predicateMapValue .iri
+  graph : SynMap r.graphMapType r.graphMapValue .iri
+  obj : CleanMap (objMapOf rules r).1 (objMapOf rules r).2.1
+  noStarO : r.objectTermtype ≠ .star
+  /-- no language/datatype, or a constant one on a literal without quote, backslash or brace -/
+  lang : (r.langDatatype = none ∧ r.langDatatypeMapType = none) ∨
+    (r.objectTermtype = .literal ∧ r.langDatatype.isSome = true ∧ r.langDatatypeMapType = some .constant ∧
+      '\\' ∉ r.langDatatypeMapValue ∧ '{' ∉ r.langDatatypeMapValue ∧ '"' ∉ r.langDatatypeMapValue)
+
+theorem tokenSafe_of_synSafe (env : Env) (rules : List Rule) (r : Rule) (h : SynSafe env rules r) :
+    TokenSafe env rules r where
+  noStarS := by
+    rcases h.subj with ⟨_, _, _, _, d⟩ | ⟨_, e, _⟩
+    · exact d
+    · rw [e]; decide
+  noStarO := h.noStarO
+  cleanS := h.subj.clean
+  cleanP := h.pred.clean
+  cleanO := h.obj
+  cleanG := h.graph.clean
+  spaceS := fun row t hm => h.subj.nospace env.cfg h.safe _ _ row t hm
+  spaceP := fun row t hm => h.pred.nospace env.cfg h.safe _ _ row t hm
+  spaceG := fun row t hm => h.graph.nospace env.cfg h.safe _ _ row t hm
+  langOnLiteral := by
+    intro hl
+    rcases h.lang with ⟨a, _⟩ | ⟨a, _⟩
+    · exact a
+    · exact absurd a hl
+  langWF := by
+    rcases h.lang with ⟨a, b⟩ | ⟨_, a, b, _⟩
+    · simp [a, b]
+    · simp [a, b]
+  langClean := by
+    intro mt hmt _ _
+    rcases h.lang with ⟨_, b⟩ | ⟨_, _, _, c, d, _⟩
+    · rw [b] at hmt; cases hmt
+    · exact ⟨c, d⟩
+  langQuote := by
+    intro row sfx hs
+    rcases h.lang with ⟨a, b⟩ | ⟨_, a, b, c, d, e⟩
+    · unfold LangSuffix at hs; rw [a, b] at hs; simp only at hs; subst hs; simp
+    · unfold LangSuffix at hs
+      cases hk : r.langDatatype with
+      | none => rw [hk] at a; cases a
+      | some k =>
+        rw [hk, b] at hs
+        cases k with
+        | languageMap =>
+          simp only at hs
+          obtain ⟨l, hl, rfl⟩ := hs
+          rw [render_noref env.cfg .constant (by decide) _ _ _ _ _ c d] at hl
+          simp only [Except.ok.injEq] at hl
+          subst hl
+          simpa [wrapTerm] using e
+        | datatypeMap =>
+          simp only at hs
+          obtain ⟨l, hl, rfl⟩ := hs
+          rw [render_noref env.cfg .constant (by decide) _ _ _ _ _ c d] at hl
+          simp only [Except.ok.injEq] at hl
+          subst hl
+          simpa [wrapTerm] using e
+
+/-- **C03 with hypotheses that can be read off the mapping.** -/
+theorem C03_disjoint_partial_syntactic (env : Env) (hf : env.fmt = .nquads) (rules : List Rule) (ls : List Str)
+    (hp : partitionLabels .partialAggregations rules = .ok ls)
+    (hsafe : ∀ r ∈ rules, SynSafe env rules r)
+    (i j : Nat) (hi : i < rules.length) (hj : j < rules.length) (hne : ls[i]? ≠ ls[j]?)
+    (out₁ out₂ : List Str) (h₁ : evalRule env rules rules[i] = .ok out₁) (h₂ : evalRule env rules rules[j] = .ok out₂) :
+    ∀ x ∈ out₁, x ∉ out₂ :=
+  C03_disjoint_partial env hf rules ls hp (fun r hr => tokenSafe_of_synSafe env rules r (hsafe r hr)) i j hi hj hne
+    out₁ out₂ h₁ h₂
+
+/-- **C03 (MAXIMAL, N-QUADS).** -/
+theorem C03_disjoint_maximal (env : Env) (hf : env.fmt = .nquads) (rules : List Rule) (ls : List Str)
+    (hp : partitionLabels .maximal rules = .ok ls)
+    (hsafe : ∀ r ∈ rules, TokenSafe env rules r)
+    (i j : Nat) (hi : i < rules.length) (hj : j < rules.length) (hne : ls[i]? ≠ ls[j]?)
+    (out₁ out₂ : List Str) (h₁ : evalRule env rules rules[i] = .ok out₁) (h₂ : evalRule env rules rules[j] = .ok out₂) :
+    ∀ x ∈ out₁, x ∉ out₂ := by
+  intro x hx hx'
+  obtain ⟨rs, a, b, hrs, _, _, hra, hrb, hsep⟩ := C03_maximal_separation rules ls hp
+    (fun r hr => (hsafe r hr).langOnLiteral) i j hi hj hne
+  obtain ⟨ρ₁, hρ₁⟩ := evalRule_mem env rules _ _ h₁ x hx
+  obtain ⟨ρ₂, hρ₂⟩ := evalRule_mem env rules _ _ h₂ x hx'
+  have m₁ : rules[i] ∈ rules := List.getElem_mem hi
+  have m₂ : rules[j] ∈ rules := List.getElem_mem hj
+  exact lines_ne env hf rules rs hrs _ _ m₁ m₂ a b i j hra hrb (hsafe _ m₁) (hsafe _ m₂) hsep ρ₁ ρ₂ x x hρ₁ hρ₂ rfl
+
+/-- **C03**, both algorithms (with partitioning disabled there is one group and nothing to prove). -/
+theorem C03_disjoint (env : Env) (hf : env.fmt = .nquads) (mode : PartMode) (rules : List Rule) (ls : List Str)
+    (hp : partitionLabels mode rules = .ok ls)
+    (hsafe : ∀ r ∈ rules, TokenSafe env rules r)
+    (i j : Nat) (hi : i < rules.length) (hj : j < rules.length) (hne : ls[i]? ≠ ls[j]?)
+    (out₁ out₂ : List Str) (h₁ : evalRule env rules rules[i] = .ok out₁) (h₂ : evalRule env rules rules[j] = .ok out₂) :
+    ∀ x ∈ out₁, x ∉ out₂ := by
+  cases mode with
+  | none =>
+    exfalso; apply hne
+    simp only [partitionLabels, Except.ok.injEq] at hp
+    subst hp
+    simp [hi, hj]
+  | partialAggregations => exact C03_disjoint_partial env hf rules ls hp hsafe i j hi hj hne out₁ out₂ h₁ h₂
+  | maximal => exact C03_disjoint_maximal env hf rules ls hp hsafe i j hi hj hne out₁ out₂ h₁ h₂
+
+/-! ### the per-group outputs together have no duplicates -/
+
+open Props.C02 in
+theorem mem_withLabels_idx (rules : List Rule) (ls : List Str) (hl : ls.length = rules.length) (r' : Rule)
+    (h : r' ∈ withLabels rules ls) :
+    ∃ (i : Nat) (hi : i < rules.length) (hi' : i < ls.length), r' = relabel rules[i] ls[i] := by
+  simp only [withLabels, List.mem_map] at h
+  obtain ⟨p, hp, rfl⟩ := h
+  obtain ⟨k, hk, he⟩ := List.mem_iff_getElem.mp hp
+  simp only [List.length_zip] at hk
+  refine ⟨k, by omega, by omega, ?_⟩
+  rw [← he]; simp [relabel]
+
+open Props.C02 in
+/-- **C03_file_nodup.** Under N-QUADS, for token-safe rules that all evaluate, the lists of statements of the groups
+    (each deduplicated, as `_materialize_mapping_group_to_set` returns it), concatenated in group order, contain no
+    duplicate; so the result set is that concatenation and the sum of the per-group counts is its cardinality. -/
+theorem C03_file_nodup (env : Env) (hf : env.fmt = .nquads) (mode : PartMode) (rules : List Rule) (ls : List Str)
+    (hp : partitionLabels mode rules = .ok ls) (hsafe : ∀ r ∈ rules, TokenSafe env rules r)
+    (hok : AllOk env rules) :
+    ∃ groups, (dedupFirst (((withLabels rules ls).filter (·.asserted)).map (·.partition))).mapM
+        (evalGroup env (withLabels rules ls)) = .ok groups ∧
+      groups.flatten.Nodup ∧ evalGrouped env (withLabels rules ls) = .ok groups.flatten := by
+  have hl := partitionLabels_length mode rules ls hp
+  have hok' := (allOk_withLabels env rules ls hl).mpr hok
+  have hg : ∀ l ∈ dedupFirst (((withLabels rules ls).filter (·.asserted)).map (·.partition)),
+      ∃ g, evalGroup env (withLabels rules ls) l = .ok g :=
+    fun l _ => let ⟨g, hg, _⟩ := evalGroup_ok env _ hok' l; ⟨g, hg⟩
+  have hmap := mapM_ok_of_forall _ _ hg
+  refine ⟨_, hmap, ?_⟩
+  have hnd : (List.map (fun l => okVal (evalGroup env (withLabels rules ls) l))
+      (dedupFirst (((withLabels rules ls).filter (·.asserted)).map (·.partition)))).flatten.Nodup := by
+    unfold List.Nodup
+    rw [List.pairwise_flatten]
+    constructor
+    · intro g hgm
+      obtain ⟨l, _, rfl⟩ := List.mem_map.mp hgm
+      unfold evalGroup
+      have h' : ∀ r ∈ ((withLabels rules ls).filter (·.asserted)).filter (·.partition = l),
+          ∃ out, evalRule env (withLabels rules ls) r = .ok out := fun r hr => hok' r (List.mem_filter.mp hr).1
+      rw [mapM_ok_of_forall _ _ h']
+      exact nodup_dedupFirst _
+    · rw [List.pairwise_map]
+      refine List.Pairwise.imp_of_mem (fun {l l'} _ _ hne => ?_) (nodup_dedupFirst _)
+      intro x hx y hx' exy
+      subst exy
+      obtain ⟨g, hgl, hmem⟩ := evalGroup_ok env _ hok' l
+      obtain ⟨g', hgl', hmem'⟩ := evalGroup_ok env _ hok' l'
+      rw [hgl] at hx; rw [hgl'] at hx'
+      obtain ⟨r₁, hr₁, hp₁, out₁, ho₁, hx₁⟩ := (hmem x).mp hx
+      obtain ⟨r₂, hr₂, hp₂, out₂, ho₂, hx₂⟩ := (hmem' x).mp hx'
+      obtain ⟨i, hi, hi', rfl⟩ := mem_withLabels_idx rules ls hl r₁ (List.mem_filter.mp hr₁).1
+      obtain ⟨j, hj, hj', rfl⟩ := mem_withLabels_idx rules ls hl r₂ (List.mem_filter.mp hr₂).1
+      rw [evalRule_relabel env rules ls hl] at ho₁ ho₂
+      have hne' : ls[i]? ≠ ls[j]? := by
+        have e₁ : ls[i] = l := hp₁
+        have e₂ : ls[j] = l' := hp₂
+        simp only [List.getElem?_eq_getElem hi', List.getElem?_eq_getElem hj', ne_eq, Option.some.injEq]
+        rw [e₁, e₂]; exact hne
+      exact C03_disjoint env hf mode rules ls hp hsafe i j hi hj hne' out₁ out₂ ho₁ ho₂ x hx₁ hx₂
+  refine ⟨hnd, ?_⟩
+  rw [evalGrouped_eq, hmap]
+  show Except.ok (dedupFirst _) = Except.ok _
+  rw [dedupFirst_of_nodup _ hnd]
+
+/-! ### non-vacuity -/
+
+instance (v : Str) : Decidable (EscapeFree v) := by unfold EscapeFree; exact inferInstance
+instance (k : MapType) (v : Str) (t : TermType) : Decidable (SynMap k v t) := by unfold SynMap; exact inferInstance
+instance (k : MapType) (v : Str) : Decidable (CleanMap k v) := by unfold CleanMap; exact inferInstance
+
+/-- a literal-valued rule with a constant language tag, and a rule joining to it, in a named graph -/
+def exRules : List Rule :=
+  [{ tmId := "#A".toList, subjectMapValue := "http://ex/a/{id}".toList, predicateMapValue := "http://ex/p".toList,
+     objectMapType := .reference, objectMapValue := "name".toList, objectTermtype := .literal,
+     langDatatype := some .languageMap, langDatatypeMapType := some .constant, langDatatypeMapValue := "en".toList,
+     graphMapValue := "http://w3id.org/rml/defaultGraph".toList, logicalSourceValue := "t".toList },
+   { tmId := "#B".toList, subjectMapValue := "http://ex/b/{id}".toList, predicateMapValue := "http://ex/q".toList,
+     objectMapType := .parentTM, objectMapValue := "#A".toList, objectJoin := [("id".toList, "id".toList)],
+     graphMapValue := "http://ex/G".toList, logicalSourceValue := "t".toList }]
+
+def exEnv : Env :=
+  { fmt := .nquads, tables := [(([], "t".toList), [[("id".toList, .str "1".toList), ("name".toList, .str "a b".toList)]])] }
+
+theorem exRules_synSafe : ∀ r ∈ exRules, SynSafe exEnv exRules r := by
+  intro r hr
+  simp only [exRules, List.mem_cons, List.mem_nil_iff, or_false] at hr
+  rcases hr with rfl | rfl <;> constructor <;> decide +kernel
+
+theorem exRules_labels : partitionLabels .partialAggregations exRules = .ok ["1-1-2-2".toList, "2-2-1-1".toList] := by
   decide +kernel
 
-def r1 : Rule :=
-  { tmId := "#TM0".toList, subjectMapType := .reference, subjectMapValue := ['s'],
-    predicateMapValue := "http://p/a".toList, objectMapType := .reference, objectMapValue := ['o'],
-    graphMapValue := "http://w3id.org/rml/defaultGraph".toList }
-def r2 : Rule := { r1 with tmId := "#TM1".toList, predicateMapValue := "http://p/b".toList }
+theorem exRules_out :
+    evalRule exEnv exRules exRules[0] = .ok ["<http://ex/a/1> <http://ex/p> \"a b\"@en ".toList] ∧
+    evalRule exEnv exRules exRules[1] = .ok ["<http://ex/b/1> <http://ex/q> <http://ex/a/1> <http://ex/G>".toList] := by
+  decide +kernel
 
-/-- C03_F2: reference-valued IRIs are emitted verbatim, so data can forge the term boundaries: two rules separated
-    by their constant predicates print the identical line from two different rows -/
-theorem C03_F2_reference_iri_collision :
-    partitionLabels .partialAggregations [r1, r2] = .ok ["1-1-1-1".toList, "1-2-1-1".toList] ∧
-    rowTriple { fmt := .nquads } r1 .reference ['o'] [] [(['s'], "a> <http://p/b> <b".toList), (['o'], ['c'])]
-      = rowTriple { fmt := .nquads } r2 .reference ['o'] [] [(['s'], ['a']), (['o'], "b> <http://p/a> <c".toList)] := by
+/-- all hypotheses of `C03_disjoint_partial_syntactic` hold for the example, with non-empty outputs -/
+example : ∀ x ∈ ["<http://ex/a/1> <http://ex/p> \"a b\"@en ".toList],
+    x ∉ ["<http://ex/b/1> <http://ex/q> <http://ex/a/1> <http://ex/G>".toList] :=
+  C03_disjoint_partial_syntactic exEnv rfl exRules _ exRules_labels exRules_synSafe 0 1 (by decide) (by decide)
+    (by decide) _ _ exRules_out.1 exRules_out.2
+
+theorem exRules_labels_maximal : partitionLabels .maximal exRules = .ok ["1-1-1-1".toList, "2-1-1-1".toList] := by
+  decide +kernel
+
+/-- … and of `C03_disjoint` for MAXIMAL -/
+example : ∀ x ∈ ["<http://ex/a/1> <http://ex/p> \"a b\"@en ".toList],
+    x ∉ ["<http://ex/b/1> <http://ex/q> <http://ex/a/1> <http://ex/G>".toList] :=
+  C03_disjoint exEnv rfl .maximal exRules _ exRules_labels_maximal
+    (fun r hr => tokenSafe_of_synSafe _ _ r (exRules_synSafe r hr)) 0 1 (by decide) (by decide)
+    (by decide) _ _ exRules_out.1 exRules_out.2
+
+theorem exRules_allOk : Props.C02.AllOk exEnv exRules := by
+  intro r hr
+  have hr' : r ∈ exRules := (List.mem_filter.mp hr).1
+  have : r = exRules[0] ∨ r = exRules[1] := by
+    simp only [exRules, List.mem_cons, List.mem_nil_iff, or_false] at hr'
+    exact hr'
+  rcases this with rfl | rfl
+  · exact ⟨_, exRules_out.1⟩
+  · exact ⟨_, exRules_out.2⟩
+
+/-- … and of `C03_file_nodup` -/
+example : ∃ groups, (dedupFirst (((withLabels exRules ["1-1-2-2".toList, "2-2-1-1".toList]).filter (·.asserted)).map (·.partition))).mapM
+      (Props.C02.evalGroup exEnv (withLabels exRules ["1-1-2-2".toList, "2-2-1-1".toList])) = .ok groups ∧
+    groups.flatten.Nodup ∧
+    evalGrouped exEnv (withLabels exRules ["1-1-2-2".toList, "2-2-1-1".toList]) = .ok groups.flatten :=
+  C03_file_nodup exEnv rfl .partialAggregations exRules _ exRules_labels
+    (fun r hr => tokenSafe_of_synSafe _ _ r (exRules_synSafe r hr)) exRules_allOk
+
+/-- `C03_partial_separation`: the hypothesis holds and the labels differ -/
+example : ∀ r ∈ exRules, r.objectTermtype ≠ .literal → r.langDatatype = none := by decide
+
+/-! ### B5 and the other counter-witnesses -/
+
+/-- two rules that differ only in their constant graph maps -/
+def f1Rules : List Rule :=
+  [{ tmId := "#A".toList, subjectMapValue := "http://ex/{id}".toList, predicateMapValue := "http://ex/p".toList,
+     objectMapValue := "http://ex/o".toList, graphMapValue := "http://ex/G1".toList },
+   { tmId := "#A".toList, subjectMapValue := "http://ex/{id}".toList, predicateMapValue := "http://ex/p".toList,
+     objectMapValue := "http://ex/o".toList, graphMapValue := "http://ex/G2".toList }]
+
+/-- **C03_F1.** The two rules fall into different groups (under both algorithms), yet with N-TRIPLES output they print
+    the same line for the same row: the statement is written once per group. -/
+theorem C03_F1_ntriples_graph_only :
+    partitionLabels .partialAggregations f1Rules = .ok ["1-1-1-1".toList, "1-1-1-2".toList] ∧
+    partitionLabels .maximal f1Rules = .ok ["1-1-1-1".toList, "1-1-1-2".toList] ∧
+    rowTriple { fmt := .ntriples } f1Rules[0] .constant "http://ex/o".toList [] [("id".toList, "1".toList)]
+      = .ok "<http://ex/1> <http://ex/p> <http://ex/o>".toList ∧
+    rowTriple { fmt := .ntriples } f1Rules[1] .constant "http://ex/o".toList [] [("id".toList, "1".toList)]
+      = .ok "<http://ex/1> <http://ex/p> <http://ex/o>".toList := by
+  decide +kernel
+
+/-- … whereas under N-QUADS the lines differ (an instance of `C03_disjoint_partial`) -/
+theorem C03_F1_nquads_differ :
+    rowTriple { fmt := .nquads } f1Rules[0] .constant "http://ex/o".toList [] [("id".toList, "1".toList)]
+      = .ok "<http://ex/1> <http://ex/p> <http://ex/o> <http://ex/G1>".toList ∧
+    rowTriple { fmt := .nquads } f1Rules[1] .constant "http://ex/o".toList [] [("id".toList, "1".toList)]
+      = .ok "<http://ex/1> <http://ex/p> <http://ex/o> <http://ex/G2>".toList := by
+  decide +kernel
+
+/-- IRI objects carrying a (dangling) language: `literal_type` precedes the invariant in the object sort for every
+    term type, so equal invariants need not be adjacent -/
+def f3Rules : List Rule :=
+  [{ tmId := "#A".toList, subjectMapValue := "http://ex/{id}".toList, predicateMapValue := "http://ex/p".toList,
+     objectMapValue := "http://ex/a".toList, langDatatype := some .languageMap, langDatatypeMapValue := "x".toList,
+     graphMapValue := "http://w3id.org/rml/defaultGraph".toList },
+   { tmId := "#B".toList, subjectMapValue := "http://ex/{id}".toList, predicateMapValue := "http://ex/p".toList,
+     objectMapValue := "http://ex/b".toList, langDatatype := some .languageMap, langDatatypeMapValue := "x".toList,
+     graphMapValue := "http://w3id.org/rml/defaultGraph".toList },
+   { tmId := "#C".toList, subjectMapValue := "http://ex/{id}".toList, predicateMapValue := "http://ex/p".toList,
+     objectMapValue := "http://ex/a".toList, langDatatype := some .languageMap, langDatatypeMapValue := "y".toList,
+     graphMapValue := "http://w3id.org/rml/defaultGraph".toList }]
+
+/-- **C03_F3 (model-level).** Without the hypothesis "language/datatype only on literal objects" the separation theorem
+    fails: the first and the third rule have the same object invariant and different labels, and print the same
+    N-QUADS line. -/
+theorem C03_F3_literal_type_on_iri :
+    partitionLabels .partialAggregations f3Rules = .ok ["1-1-1-1".toList, "1-1-2-1".toList, "1-1-3-1".toList] ∧
+    rowTriple { fmt := .nquads } f3Rules[0] .constant "http://ex/a".toList [] [("id".toList, "1".toList)]
+      = rowTriple { fmt := .nquads } f3Rules[2] .constant "http://ex/a".toList [] [("id".toList, "1".toList)] ∧
+    rowTriple { fmt := .nquads } f3Rules[0] .constant "http://ex/a".toList [] [("id".toList, "1".toList)]
+      = .ok "<http://ex/1> <http://ex/p> <http://ex/a> ".toList := by
+  decide +kernel
+
+/-- two rules that differ only in their constant predicates, with reference-valued (hence unencoded) IRIs -/
+def f2Rules : List Rule :=
+  [{ tmId := "#A".toList, subjectMapType := .reference, subjectMapValue := "s".toList,
+     predicateMapValue := "http://ex/p1".toList, objectMapType := .reference, objectMapValue := "o".toList,
+     graphMapValue := "http://w3id.org/rml/defaultGraph".toList },
+   { tmId := "#B".toList, subjectMapType := .reference, subjectMapValue := "s".toList,
+     predicateMapValue := "http://ex/p2".toList, objectMapType := .reference, objectMapValue := "o".toList,
+     graphMapValue := "http://w3id.org/rml/defaultGraph".toList }]
+
+/-- **C03_F2 (model-level).** Outside `TokenSafe` the property fails: reference-valued IRIs are written verbatim
+    (`C05_F1`), so crafted values make two rules of different groups print the same N-QUADS line. -/
+theorem C03_F2_reference_iri_breaks_tokens :
+    partitionLabels .partialAggregations f2Rules = .ok ["1-1-1-1".toList, "1-2-1-1".toList] ∧
+    rowTriple { fmt := .nquads } f2Rules[0] .reference "o".toList []
+        [("s".toList, "a".toList), ("o".toList, "x> <http://ex/p2> <y".toList)]
+      = rowTriple { fmt := .nquads } f2Rules[1] .reference "o".toList []
+        [("s".toList, "a> <http://ex/p1> <x".toList), ("o".toList, "y".toList)] ∧
+    rowTriple { fmt := .nquads } f2Rules[0] .reference "o".toList []
+        [("s".toList, "a".toList), ("o".toList, "x> <http://ex/p2> <y".toList)]
+      = .ok "<a> <http://ex/p1> <x> <http://ex/p2> <y> ".toList := by
+  decide +kernel
+
+/-- why `EscapeFree` also excludes U+200B: a template that contains `AUXILIAR_UNIQUE_REPLACING_STRING` literally gets
+    an invariant in which that text is replaced by `\\{` — the rendered term does not start with it (model-level note) -/
+theorem C03_note_aux_string_in_template :
+    getInvariantOfTemplate (auxString ++ "/{id}".toList) = some "\\{/".toList ∧
+    materializeTemplate {} .template (auxString ++ "/{id}".toList) (some .iri) [] [] (fun _ => some ['1'])
+      = .ok (['<'] ++ auxString ++ "/1>".toList) := by
   decide +kernel
 
 end Props.C03
